@@ -189,8 +189,8 @@ def subsetTree (t : Tree) (subset : List Int) : Tree :=
   { nodes := nodes, conns := t.conns.filter fun c => (nodes.map (·.id)).contains c.node }
 
 def inVolumeTree (S : Solid) (mode : Mode) (t : Tree) : Tree :=
-  let m := keepMask mode (inVolumePoints S (t.nodes.map (·.pos)))
-  if m.all id then t else subsetTree t (masked t.ids m)
+  if (keepMask mode (inVolumePoints S (t.nodes.map (·.pos)))).all id then t
+  else subsetTree t (masked t.ids (keepMask mode (inVolumePoints S (t.nodes.map (·.pos)))))
 
 /-- `x.prune_by_volume(v, mode)` is `in_volume(copy, v, mode=mode, inplace=True)`. -/
 def pruneByVolume (S : Solid) (mode : Mode) (t : Tree) : Tree := inVolumeTree S mode t
@@ -278,14 +278,19 @@ structure DotsOut where
   conns : List (Int × Nat)
 deriving DecidableEq, Repr, Inhabited
 
+/-- `subset_neuron(dotprops, subset=mask)`: `_subset_dotprops` -/
+def subsetDots (d : Dots) (subset : List Nat) : DotsOut :=
+  { kept := subset,
+    conns := (d.conns.filter fun c => subset.contains (attach d.pts c)).map
+      fun c => (c.cid, subset.idxOf (attach d.pts c)) }
+
+/-- nothing to remove: the neuron is returned as it is -/
+def allDots (d : Dots) : DotsOut :=
+  { kept := List.range d.pts.length, conns := d.conns.map fun c => (c.cid, attach d.pts c) }
+
 def inVolumeDots (S : Solid) (mode : Mode) (d : Dots) : DotsOut :=
-  let m := keepMask mode (inVolumePoints S d.pts)
-  if m.all id then
-    { kept := List.range d.pts.length, conns := d.conns.map fun c => (c.cid, attach d.pts c) }
-  else
-    let subset := maskedIdx m
-    let keptC := d.conns.filter fun c => subset.contains (attach d.pts c)
-    { kept := subset, conns := keptC.map fun c => (c.cid, subset.idxOf (attach d.pts c)) }
+  if (keepMask mode (inVolumePoints S d.pts)).all id then allDots d
+  else subsetDots d (maskedIdx (keepMask mode (inVolumePoints S d.pts)))
 
 /-! ### MeshNeuron -/
 
@@ -319,16 +324,20 @@ structure MeshOut where
   subset : List Nat
 deriving DecidableEq, Repr, Inhabited
 
+/-- `subset_neuron(mesh, subset=mask)`: `_subset_meshneuron` + `submesh` -/
+def subsetMesh (m : Mesh) (subset : List Nat) : MeshOut :=
+  { kept := submeshVerts m subset, faces := m.faces.filter (·.allIn subset),
+    conns := (m.conns.filter fun c => subset.contains (attach m.verts c)).map
+      fun c => (c.cid, subset.idxOf (attach m.verts c)),
+    subset := subset }
+
+def allMesh (m : Mesh) : MeshOut :=
+  { kept := List.range m.verts.length, faces := m.faces,
+    conns := m.conns.map fun c => (c.cid, attach m.verts c), subset := List.range m.verts.length }
+
 def inVolumeMesh (S : Solid) (mode : Mode) (m : Mesh) : MeshOut :=
-  let msk := keepMask mode (inVolumePoints S m.verts)
-  if msk.all id then
-    { kept := List.range m.verts.length, faces := m.faces,
-      conns := m.conns.map fun c => (c.cid, attach m.verts c), subset := List.range m.verts.length }
-  else
-    let subset := maskedIdx msk
-    let keptC := m.conns.filter fun c => subset.contains (attach m.verts c)
-    { kept := submeshVerts m subset, faces := m.faces.filter (·.allIn subset),
-      conns := keptC.map fun c => (c.cid, subset.idxOf (attach m.verts c)), subset := subset }
+  if (keepMask mode (inVolumePoints S m.verts)).all id then allMesh m
+  else subsetMesh m (maskedIdx (keepMask mode (inVolumePoints S m.verts)))
 
 /-- a face with vertices on both sides of the surface -/
 def Face.straddles (S : Solid) (verts : List P3) (f : Face) : Bool :=
